@@ -272,4 +272,44 @@ def simpleRule : Rule → Bool
 def simpleTerminals (g : Grammar) : Bool :=
   g.rules.all fun (_, b) => isTerminalBody b || simpleRule b
 
+/-! ## which whole-rule terminals are tokens (`extract_tokens`' absorption rule)
+
+`DerivesTok` reads a rule whose body is a single terminal as a token named after the rule.  The
+generator does that (`extract_tokens`: "if a variable's entire rule was extracted as a token and that
+token didn't appear within any other rule, then remove that variable from the syntax grammar, giving
+its name to the token") only when the rule is not the start rule, its body is the bare terminal (no
+PREC wrapper), the terminal is used nowhere else, and — for a string — the rule is not hidden
+(`_`-prefixed).  Otherwise the rule stays a non-terminal with the single production `x → 'string'`.
+`tokenView` rewrites exactly those rules to `seq(body, blank)`, so that `DerivesTok (tokenView g)`
+reads them as rules: it is the token-level reading of grammar.json the drivers use (part of the
+specification, like `DerivesTok` itself; it changes nothing for grammars without such rules). -/
+
+/-- occurrences of the string `s` as a token of its own (not inside `token(…)`) -/
+def strUses (s : String) : Rule → Nat
+  | .str s' => if s' == s then 1 else 0
+  | .seq a b => strUses s a + strUses s b
+  | .choice a b => strUses s a + strUses s b
+  | .rep a => strUses s a
+  | .rep1 a => strUses s a
+  | .field _ a => strUses s a
+  | .alias _ _ a => strUses s a
+  | .prec _ _ a => strUses s a
+  | _ => 0
+
+def Grammar.strCount (g : Grammar) (s : String) : Nat :=
+  (g.rules.map fun e => strUses s e.2).foldl (· + ·) 0 + (g.externals.map (strUses s)).foldl (· + ·) 0
+
+def absorbed (g : Grammar) (x : String) (b : Rule) : Bool :=
+  x != g.start &&
+  match b with
+  | .str s => !(x.toList.head? == some '_') && g.strCount s == 1
+  | .pat _ => true
+  | .token _ => true
+  | .immToken _ => true
+  | _ => false
+
+def tokenView (g : Grammar) : Grammar :=
+  { g with rules := g.rules.map fun e =>
+      if isTerminalBody e.2 && !absorbed g e.1 e.2 then (e.1, .seq e.2 .blank) else e }
+
 end TsVerif.C03
